@@ -1208,14 +1208,14 @@ fn main() {
     // --scale) and the fixed sections are sub-sampled by seed (`--tiny 1` does the same natively)
     let miri = cfg!(miri) || args.get("tiny").is_some();
     if miri {
-        set_stride(4, seed);
+        set_stride(5, seed);
     }
     fixed_pairs(&mut r);
     macro_sites(&mut r);
 
-    let n_seeded = if miri { (6 * args.scale / 100).max(1) } else { args.n(300_000, 12_000_000) };
+    let n_seeded = if miri { (4 * args.scale / 100).max(1) } else { args.n(300_000, 12_000_000) };
     par_cases(&mut r, &args, n_seeded, |i, r| seeded_case(r, seed, i));
-    let n_unrelated = if miri { (4 * args.scale / 100).max(1) } else { args.n(200_000, 8_000_000) };
+    let n_unrelated = if miri { (3 * args.scale / 100).max(1) } else { args.n(200_000, 8_000_000) };
     par_cases(&mut r, &args, n_unrelated, |i, r| unrelated_case(r, seed, i));
 
     std::process::exit(r.finish());
